@@ -54,9 +54,14 @@ def oracle(case, obs):
                 fails.append({"oracle": "sound", "backend": be, "detail": "untouched account reports %s failure(s)" % kv.get("failures")})
             if kv.get("complete") != "1":
                 fails.append({"oracle": "completes", "backend": be, "detail": "report on the untouched account did not complete"})
-        elif t[0] in ("mut", "rm"):
+        elif t[0] == "fclean":
+            if kv.get("failures") != "0":
+                fails.append({"oracle": "sound", "backend": be, "store": "blob", "detail": "untouched blobs report %s failure(s)" % kv.get("failures")})
+            if kv.get("complete") != "1":
+                fails.append({"oracle": "completes", "backend": be, "store": "blob", "detail": "file integrity report on untouched blobs did not complete"})
+        elif t[0] in ("mut", "rm", "fmut", "frm"):
             if kv.get("detected") != "1":
-                fails.append({"oracle": "complete", "backend": be, "store": t[1], "region": t[3] if t[0] == "mut" else "removed",
+                fails.append({"oracle": "complete", "backend": be, "store": t[1], "region": t[3] if t[0] in ("mut", "fmut") else "removed",
                               "detail": "%s: no failure reported for the folder" % o})
             elif kv.get("complete") != "1":
                 fails.append({"oracle": "completes", "backend": be, "detail": "%s: report did not complete" % o})
@@ -78,8 +83,8 @@ def distribution(cases, impl):
     for cid, obs in impl.items():
         for o in obs:
             t = o.split()
-            if t and t[0] in ("mut", "rm"):
-                k = "%s/%s" % (t[1], t[3] if t[0] == "mut" else "removed")
+            if t and t[0] in ("mut", "rm", "fmut", "frm"):
+                k = "%s/%s" % (t[1], t[3] if t[0] in ("mut", "fmut") else "removed")
                 d[k] = d.get(k, 0) + 1
     return {"mutations_by_region": d, "total_mutations": sum(d.values())}
 
